@@ -311,6 +311,16 @@ func newGRPCBroker(s streamer, tls *tls.Config, unixSocketCfg UnixSocketConfig, 
 func (b *GRPCBroker) Accept(id uint32) (net.Listener, error) {
 	if b.muxer.Enabled() {
 		p := b.getServerStream(id)
+
+		// Register the listener for this ID before any knock can be
+		// answered: a knock that is already pending (the other side dialled
+		// first) is picked up as soon as listenForKnocks starts, and the muxer
+		// must know the ID's listener by then.
+		ln, err := b.muxer.Listener(id, p.doneCh)
+		if err != nil {
+			return nil, err
+		}
+
 		go func() {
 			err := b.listenForKnocks(id)
 			if err != nil {
@@ -319,10 +329,6 @@ func (b *GRPCBroker) Accept(id uint32) (net.Listener, error) {
 		}()
 
 		verifhook.Point("grpcbroker.accept.mux.registering", id)
-		ln, err := b.muxer.Listener(id, p.doneCh)
-		if err != nil {
-			return nil, err
-		}
 
 		ln = &rmListener{
 			Listener: ln,
